@@ -123,6 +123,9 @@ def one_run(case, plan, seed):
     info = dict(lines={}, overlap=0, where=[])
 
     resub = {}
+    holding = [0]
+    inv_viol = M.Violations()
+    inv_count = [0]
 
     def do_resubmit():
         dest = RA_ if mode.startswith('x_') else 0x20
@@ -158,7 +161,11 @@ def one_run(case, plan, seed):
                         # make sure the job thread of this stack makes passes while the handler is suspended (on its own it sleeps until the
                         # next deadline it knows of): an unrelated one-shot application timer, added now, due in the middle of the hold
                         nodes[name].ecu.add_timer(hold / 2, lambda cookie: False)
-                    sim.block_current(until=sim.now + hold, waitobj=engine.HOLD, jitter=False)
+                    holding[0] += 1
+                    try:
+                        sim.block_current(until=sim.now + hold, waitobj=engine.HOLD, jitter=False)
+                    finally:
+                        holding[0] -= 1
                     if rx:
                         # non-trivial = the job thread of the same stack ran (finished at least one pass) while the handler was suspended
                         got = (len(js.waits) - w0) if js is not None else 0
@@ -187,6 +194,11 @@ def one_run(case, plan, seed):
         sim.trace_hook = mk_tracer('A')
         A = W.stack('A', **kw)
     nodes['A'] = A
+    if layer == 'j1939-22':
+        # J1939-22: after every entry into the data link layer the session numbers in use are exactly those of the stack's own live send
+        # sessions (not evaluated while the traced thread is parked in the middle of its bookkeeping)
+        from checks.c10 import install_pool_invariant
+        install_pool_invariant(A, inv_viol, inv_count, layer, holding)
     rng = random.Random(seed)
     pay = [rng.randrange(256) for _ in range(size)]
     ca = W.ca(A, 0x10, identity_number=1)
@@ -274,7 +286,7 @@ def one_run(case, plan, seed):
             other = [d for d in other if d not in ex2r]
             n2 = len(ex2r)
         resub['delivered'] = n2
-    res = dict(resub=resub, W=W, exact=len(exact), other=other, n={k: v['n'] for k, v in counters.items()}, lines={k: v['lines'] for k, v in counters.items()},
+    res = dict(inv_viol=list(inv_viol), inv_count=inv_count[0], resub=resub, W=W, exact=len(exact), other=other, n={k: v['n'] for k, v in counters.items()}, lines={k: v['lines'] for k, v in counters.items()},
                info=info, ret=W.calls[0] if W.calls else None)
     return res
 
@@ -294,6 +306,9 @@ def judge(case, r, viol, what, obs):
     if r['exact'] != want:
         viol.add('lost_or_duplicated', '%s: payload delivered %d times, %d expected (pre-empted at %s)' % (what, r['exact'], want, locs),
                  how='lost' if r['exact'] < want else 'dup', role=case.get('role', 'both'), **tag)
+    for v in r.get('inv_viol') or []:
+        viol.add(v['kind'], '%s: %s (pre-empted at %s)' % (what, v['msg'], locs), **dict({k_: v_ for k_, v_ in v['sig'].items() if k_ != 'kind'}, mode=case['mode']))
+    obs['pool_invariant_checks'] = obs.get('pool_invariant_checks', 0) + (r.get('inv_count') or 0)
     rs = r.get('resub') or {}
     if 'ret' in rs:
         obs['resubmissions'] = obs.get('resubmissions', 0) + 1
@@ -344,7 +359,7 @@ def run_case(case):
             r['obs'].setdefault(k, 0)
         return r
     viol = M.Violations()
-    obs = dict(races=0, race_holds=0, race_completed=0, race_timed_out=0, race_followups=0, resubmissions=0, resubmissions_accepted=0, preempted_runs=0, rx_preempted_runs=0, holds_overlapping_reception=0, distinct_lines_max=0, line_events_baseline=0)
+    obs = dict(pool_invariant_checks=0, races=0, race_holds=0, race_completed=0, race_timed_out=0, race_followups=0, resubmissions=0, resubmissions_accepted=0, preempted_runs=0, rx_preempted_runs=0, holds_overlapping_reception=0, distinct_lines_max=0, line_events_baseline=0)
     base = one_run(case, {}, case['seed'])
     judge(case, base, viol, 'baseline', obs)
     nA, nB = base['n']['A'], base['n']['B']
